@@ -1015,6 +1015,8 @@ def retrieve(tier, seed, ci, nc, n_other=3000, n_plain=2000, n_sphinx=1500):
             yield ('rt:retrieve', 'o', i)
         for i in sph:
             yield ('rt:sphinx', i)
+        for i in list(oth)[::3]:
+            yield ('rt:sphinx', i, 'o')       # classes and other named callables
     return _slice(gen(), ci, nc)
 
 
